@@ -579,6 +579,11 @@ func TestC10ManySamePTS(t *testing.T) {
 		if f := propC10.EvalFast(CaseC10{Ops: ops, MaxPerPTS: 30}, hx.HashInts(99, uint64(n))); f != nil {
 			t.Fatalf("VIOLATION-CANDIDATE property=C10 key=%s: %s", f.Key, f.Msg)
 		}
+		// the same with a last descriptor that closes instead of opening (it is not in the open list when it is repeated)
+		ops2 := append(append([]OpC10{}, ops[:n-1]...), OpC10{Kind: "process", Type: 0x11, Event: 2, SamePTS: true}, OpC10{Kind: "reprocess"}, OpC10{Kind: "open"})
+		if f := propC10.EvalFast(CaseC10{Ops: ops2, MaxPerPTS: 30}, hx.HashInts(98, uint64(n))); f != nil {
+			t.Fatalf("VIOLATION-CANDIDATE property=C10 key=%s: %s", f.Key, f.Msg)
+		}
 	}
-	hx.Rec("C10").Subspace("12, 21, 22 and 26 distinct descriptors on ONE signal time (per-call allocation budget 4 MiB) followed by an immediate repeat of the last")
+	hx.Rec("C10").Subspace("12, 21, 22 and 26 distinct descriptors on ONE signal time (per-call allocation budget 4 MiB) followed by an immediate repeat of the last (an opening one, and a closing one)")
 }
